@@ -1,6 +1,7 @@
 package main
 
 import (
+	"os"
 	"fmt"
 	"go/types"
 	"math/big"
@@ -242,7 +243,14 @@ func (e *Engine) unknownCall(s *State, name string, sig *types.Signature, recv V
 	if iv, ok := recv.(IfaceV); ok && sig.Params().Len() == 0 && rs.Len() == 1 && e.ifaceContract(name) == nil {
 		if so, ok := sortOf(rs.At(0).Type()); ok {
 			if _, isPtr := rs.At(0).Type().Underlying().(*types.Pointer); !isPtr {
-				uf := "ufm_" + sanitize(name)
+				// keyed by the METHOD name (and result sort) only: the same dynamic object has one method of that name,
+				// whichever interface type the call goes through (service.Conn.ID and message.Subscriber.ID of one
+				// connection are the same call)
+				mname := name
+				if i := strings.LastIndex(mname, "."); i >= 0 {
+					mname = mname[i+1:]
+				}
+				uf := "ufm_" + sanitize(mname) + "_" + sortTag(so)
 				s.defs = append(s.defs, fmt.Sprintf("(declare-fun %s (Ref) %s)", uf, so))
 				t := e.name(s, app(uf, so, e.ifaceRef(iv)))
 				if so == "Str" {
@@ -286,8 +294,16 @@ func (e *Engine) unknownCall(s *State, name string, sig *types.Signature, recv V
 		}
 	}
 	var results []Val
+	freshRes := false
+	if c := e.ifaceContract(name); c != nil && hasArg(c.D, "fresh") {
+		freshRes = true // the assumed contract says the results are freshly allocated objects (a copy, a new buffer)
+	}
 	for i := 0; i < rs.Len(); i++ {
-		results = append(results, e.symbolic(s, "r_"+sanitize(name), rs.At(i).Type()))
+		if freshRes {
+			results = append(results, e.symbolicFresh(s, "r_"+sanitize(name), rs.At(i).Type(), 0))
+		} else {
+			results = append(results, e.symbolic(s, "r_"+sanitize(name), rs.At(i).Type()))
+		}
 	}
 	ev.Results = results
 	if s.spec == 0 {
@@ -422,6 +438,13 @@ func (e *Engine) traceIntrinsic(s *State, name string, args []Val) (Val, bool) {
 		i, k := idx(args[0]), idx(args[1])
 		if i < 0 || i >= len(s.trace) || k < 0 || k >= len(s.trace[i].Args) {
 			return e.zero(s, curResultType), true
+		}
+		if fv, ok := s.trace[i].Args[k].(FuncV); ok && os.Getenv("GOVC_DEBUGFN") != "" {
+			for _, b := range fv.Bind {
+				if p, ok := b.(PtrV); ok {
+					fmt.Printf("DEBUGFN bind %+v -> %+v\n", p, e.load(s, p, p.Elem))
+				}
+			}
 		}
 		return s.trace[i].Args[k], true
 	case "vsTraceRet":
